@@ -369,9 +369,8 @@ def signature(obj):
     For these features, use `sigtools.signature`.
     """
     if isinstance(obj, partial):
-        sig = _util.funcsigs.signature(obj.func)
-        sig = set_default_sources(sig, obj.func)
-        return _mask(sig, len(obj.args), False, False, False, False,
+        return _mask(signature(obj.func),
+                     len(obj.args), False, False, False, False,
                      obj.keywords or {}, obj)
     sig =_util.funcsigs.signature(obj)
     # inspect follows __wrapped__: the annotations it reports were written
